@@ -368,7 +368,13 @@ where
 
             let (buffered_tx, buffered_rx) = crossbeam_channel::bounded(1);
 
+            #[cfg(noodles_verif)]
+            let verif_seq = crate::verif_gate::next_seq(crate::verif_gate::Kind::Inflate);
+
             rayon::spawn(move || {
+                #[cfg(noodles_verif)]
+                crate::verif_gate::enter(crate::verif_gate::Kind::Inflate, verif_seq);
+
                 let result = parse_block(&buffer.buf, &mut buffer.block).map(|_| buffer);
                 let _ = buffered_tx.send(result);
             });
